@@ -27,7 +27,7 @@ pub static DEF: PropDef = PropDef {
 fn cases(t: Tier) -> u64 {
   match t {
     Tier::Quick => 8_000,
-    Tier::Thorough => 100_000,
+    Tier::Thorough => 60_000,
   }
 }
 
